@@ -23,6 +23,15 @@ Theorem C22_supply_invariant : forall maxassets c ops, Forall op_wf ops ->
 Proof. exact supply_invariant. Qed.
 Print Assumptions C22_supply_invariant.
 
+(* the same for histories of transaction GROUPS (evaluated in one child cow, committed only if
+   every member succeeds) *)
+Theorem C22_supply_invariant_groups : forall maxassets c gs, Forall (Forall op_wf) gs ->
+  let w := grun maxassets (winit c) gs in
+  forall a, (forall p, params_of w a = Some p -> supply w a = p_total p) /\
+            (creator_of w a = None -> supply w a = 0).
+Proof. exact supply_invariant_groups. Qed.
+Print Assumptions C22_supply_invariant_groups.
+
 Theorem C22_holdings_bounded : forall maxassets c ops, Forall op_wf ops ->
   let w := run maxassets (winit c) ops in
   forall x a, match params_of w a with
@@ -151,6 +160,13 @@ Theorem C22_model_meets_spec : forall maxassets c ops o, Forall op_wf ops -> op_
   spec_step w o (res_ok r) (res_val r) w' <> 1.
 Proof. exact model_meets_spec. Qed.
 Print Assumptions C22_model_meets_spec.
+
+Theorem C22_model_meets_spec_group : forall maxassets c gs g, Forall (Forall op_wf) gs -> Forall op_wf g ->
+  let w := grun maxassets (winit c) gs in
+  let '(w', r, _) := gstep maxassets w g in
+  spec_group w (res_ok_l r) w' = 0.
+Proof. exact model_meets_spec_group. Qed.
+Print Assumptions C22_model_meets_spec_group.
 
 (* and [supply_ok], the part of the checker for the first sentence of the property, means
    what it should on any observed world *)
